@@ -401,3 +401,33 @@ Theorem C10_first_batch_trace_example :
   /\ height GapC10.ExL.s_pre < HEIGHT_BOUND.
 Proof. exact GapC10.ExL.first_batch_hyps. Qed.
 Print Assumptions C10_first_batch_trace_example.
+
+(* ------------------------------------------------------------------------------------------
+   Known finding K3 inside the model (DESIGN.md 12.10). `XCallMod` (Model/ModSvc.v) is the
+   module-service branch of MsgCallService, executed by `xstep` on top of `pstep`; exclusion
+   X-K3 is "the history contains no XCallMod" (`k3_free`).  The statements below are refuted /
+   proved in Proofs/K3.v on concrete reachable witnesses (corpus history W10) by vm_compute. *)
+From Coq Require Import List ZArith Bool Lia.
+From SVC Require Import Base.AMap Base.Res Base.Dec Model.Types Model.Pricing Model.Handlers Model.EndBlock Model.Step Model.ParamStep Model.ModSvc Model.Genesis Proofs.Inv Proofs.ParamChange Proofs.K3.
+Import ListNotations.
+Open Scope Z_scope.
+
+Theorem C10_K3_second_batch_refuted :
+  exists (cfg : Params) (s : State) (o : XOp) (dt : Z) (s' s'' : State) (c : CtxId) 
+         (rc' rc'' : Ctx),
+           wf_cfg cfg /\
+           Reach cfg s /\
+           is_callmod o = true /\
+           xstep (cfg, s) o = (cfg, s', ROk) /\
+           xstep (cfg, s') (XP (PO (OEndBlock dt))) = (cfg, s'', ROk) /\
+           get c (ctxs s') = Some rc' /\
+           c_rep rc' = false /\
+           c_counter rc' = 1 /\
+           c_bdone rc' = true /\
+           c_state rc' = Running /\
+           get c (newq_h s') = Some (height s') /\
+           get c (expq_h s') = None /\
+           ~ I_ctx cfg s' /\
+           get c (ctxs s'') = Some rc'' /\ c_rep rc'' = false /\ c_counter rc'' = 2 /\ ~ I_ctx cfg s''.
+Proof. exact K3.K3_second_batch_refuted. Qed.
+Print Assumptions C10_K3_second_batch_refuted.
